@@ -91,6 +91,15 @@ Theorem C18_model_agreement_gives_pairwise : forall bs known nats p,
 Proof. exact judge_1807_ok_pairwise. Qed.
 Print Assumptions C18_model_agreement_gives_pairwise.
 
+(* 1809 http-mapped requests (EnableHttpMapping, hand-backs between the native state machine and the Go glue): VOk means all four
+   implementations rejected, or all accepted with byte-identical output *)
+Theorem C18_check_http_ok_means_agreement : forall bits bk body src mask o0 e0 o1 e1 o2 e2 op ep,
+  check_1809 [FZ bits; FZ bk; FB body; FB src; FZ mask; FB o0; FZ e0; FB o1; FZ e1; FB o2; FZ e2; FB op; FZ ep] = VOk ->
+  let all := (ep, op) :: sel mask [(e0, o0); (e1, o1); (e2, o2)] in
+  (forall r, In r all -> fst r <> 0) \/ (forall r, In r all -> fst r = 0 /\ snd r = op).
+Proof. exact check_1809_ok_agree. Qed.
+Print Assumptions C18_check_http_ok_means_agreement.
+
 (* 1802 skip: SkipGo and every flavour of SkipNative consumed exactly the model's count *)
 Theorem C18_check_skip_sound : forall t bs mask eg ng e0 n0 e1 n1 e2 n2 r,
   check_1802 [FZ t; FB bs; FZ mask; FZ eg; FZ ng; FZ e0; FZ n0; FZ e1; FZ n1; FZ e2; FZ n2] = VOk ->
